@@ -975,6 +975,8 @@ vf::Blk* accept_foreign(State& S, void* p, size_t n) {
 void forget_foreign(State& S, vf::Blk* b) { if (b != nullptr && b->heap < 0) S.foreign_live--; }
 
 struct ThreadBlock { void* p; size_t n; bool zero; size_t a = 0; };
+static std::atomic<uint64_t> g_uninit_threads(0);
+static void thread_noout(const char*, void*) { }
 static void do_thread_alloc_exit(State& S, std::vector<vf::Blk*>* group = nullptr) {
   size_t k = 1 + (size_t)below(S, 48);
   std::vector<ThreadBlock> out;
@@ -987,6 +989,12 @@ static void do_thread_alloc_exit(State& S, std::vector<vf::Blk*>* group = nullpt
     vf_rng_t r; vf_rng_seed(&r, tseed);
     // a third of the threads also use a first-class heap of their own (which may not come into being when the OS refuses memory) and delete it before they terminate
     mi_heap_t* th = (vf_rng_chance(&r, 1, 3) ? mi_heap_new() : nullptr);
+    if (mi_heap_get_backing() == nullptr) {
+      // the allocator's data for this thread could not be set up (the OS refused memory): every API call must still fail cleanly or do nothing -- never crash
+      g_uninit_threads++;
+      mi_stats_merge(); mi_thread_stats_print_out(&thread_noout, nullptr); mi_collect_reduce(0); mi_subproc_add_current_thread(mi_subproc_main());
+      mi_collect(false); mi_collect(true); (void)mi_heap_get_default(); (void)mi_heap_new(); (void)mi_usable_size(nullptr); mi_free(nullptr); mi_thread_done();
+    }
     for (size_t i = 0; i < k; i++) {
       size_t n = (vf_rng_chance(&r, 3, 4) ? (size_t)vf_rng_below(&r, 2048) : (size_t)vf_rng_below(&r, cap));
       bool z = vf_rng_chance(&r, 1, 2) != 0;
@@ -1358,6 +1366,7 @@ void result_body(FILE* f) {
   fprintf(f, "\"walk_patterns\":%llu,\"walks\":%llu,\"walk_blocks\":%llu,\"conservation_checks\":%llu,\"queries\":%llu,\"heap_new\":%llu,\"heap_delete\":%llu,\"heap_destroy\":%llu,\"drains\":%llu,",
           (unsigned long long)S.n_walk_patterns, (unsigned long long)S.n_walks, (unsigned long long)S.n_walk_blocks, (unsigned long long)S.n_conserv, (unsigned long long)S.n_queries, (unsigned long long)S.n_heap_new,
           (unsigned long long)S.n_heap_delete, (unsigned long long)S.n_heap_destroy, (unsigned long long)S.n_drain);
+  fprintf(f, "\"threads_without_allocator_data\":%llu,", (unsigned long long)g_uninit_threads.load());
   fprintf(f, "\"remote_batches\":%llu,\"thread_exits\":%llu,\"foreign_blocks\":%llu,\"purge_ranges_checked\":%llu,\"clock_ms\":%llu,\"max_live_blocks\":%llu,\"max_live_bytes\":%llu,\"verified_blocks\":%llu,\"verified_bytes\":%llu,",
           (unsigned long long)S.n_remote_batches, (unsigned long long)S.n_thread_exits, (unsigned long long)S.n_foreign, (unsigned long long)S.n_purge_ranges, (unsigned long long)S.n_clock_ms,
           (unsigned long long)S.max_live_blocks, (unsigned long long)S.max_live_bytes, (unsigned long long)S.sm.verified_blocks, (unsigned long long)S.sm.verified_bytes);
